@@ -320,6 +320,8 @@ func (priv *PrivateKey) inverseOfPrivateKeyPlus1(c *sm2Curve) (*bigmod.Nat, erro
 		dp1Bytes      []byte
 	)
 	priv.inverseOfKeyPlus1Once.Do(func() {
+		verifGate("init:sm2.inverseOfKeyPlus1")
+		defer verifGate("inited:sm2.inverseOfKeyPlus1")
 		inverseDPlus1, err = bigmod.NewNat().SetBytes(priv.D.Bytes(), c.N)
 		if err == nil {
 			inverseDPlus1.Add(oneNat, c.N)
@@ -333,6 +335,7 @@ func (priv *PrivateKey) inverseOfPrivateKeyPlus1(c *sm2Curve) (*bigmod.Nat, erro
 			}
 		}
 	})
+	verifGate("done:sm2.inverseOfKeyPlus1")
 	if err != nil {
 		return nil, errInvalidPrivateKey
 	}
@@ -810,11 +813,14 @@ var _p256 *sm2Curve
 
 func p256() *sm2Curve {
 	p256Once.Do(func() {
+		verifGate("init:sm2.p256")
+		defer verifGate("inited:sm2.p256")
 		_p256 = &sm2Curve{
 			newPoint: func() *_sm2ec.SM2P256Point { return _sm2ec.NewSM2P256Point() },
 		}
 		precomputeParams(_p256, P256())
 	})
+	verifGate("done:sm2.p256")
 	return _p256
 }
 
